@@ -172,6 +172,17 @@ def handler(src, log, name, extra_rules=()):
 # =====================================================================================================================
 # C12: optionals
 C12_SPEC = r"""
+// Ctx::register_variable -> Stack::register_variable_flags (obligation C07.stack.store): the write `store` performs -- into the visible
+// variable of that name, or a new local when there is none; recorded as a log
+pub uninterp spec fn stores(f: &Frames) -> Seq<(Seq<char>, Primitive)>;
+impl Ctx {
+    #[verifier::external_body]
+    pub fn register_variable(&mut self, name: VString, var: Primitive) -> (r: Result<(), VErr>)
+        ensures final(self).stack@ == old(self).stack@, final(self).exit_state == old(self).exit_state, final(self).locals == old(self).locals,
+                r is Ok ==> stores(&final(self).frames) == stores(&old(self).frames).push((text_of(&name), var)),
+                r is Err ==> stores(&final(self).frames) == stores(&old(self).frames)
+    { unimplemented!() }
+}
 pub open spec fn is_nil(p: Primitive) -> bool { p == Primitive::Optional(None) }
 // the value an optional-typed operand denotes when it is present: the payload of the wrapper, or the plain value itself
 pub open spec fn present_value(p: Primitive) -> Primitive { match p { Primitive::Optional(Some(b)) => *b, other => other } }
@@ -193,6 +204,7 @@ def build_c12(repo):
     ])
     b_into = handler(src, log, "unwrap_into", [
         Rule("R1", "( Some ( ref unwrapped ) )", "( Some ( unwrapped ) )", why="ref binding of a Box on an owned scrutinee"),
+        Rule("R1", "Cow :: Owned ( name . to_owned ( ) )", "clone_vs ( name )", why="Cow<str> name"),
     ])
     gen = header(log, f"{INSTR}: jmp_not_nil, unwrap, unwrap_into; {CTXF}: Ctx methods") + prelude("ctx.rs") + C12_SPEC + ctx + f"""
 //@ OBL C12.or.jump
@@ -237,18 +249,21 @@ pub fn unwrap(ctx: &mut Ctx, args: &Vec<VString>) -> (r: Result<(), VErr>)
 }}
 
 //@ OBL C12.unwrap_into
-// `a ?= e`: compiled as  e ; unwrap_into a   -- stores the value of e into a, pushes exactly "is present"
+// `a ?= e`: compiled as  e ; unwrap_into a   -- stores the value of e into `a` -- the variable `a` visible at that point, in whatever
+// block of the function the statement stands (the same write `store` performs) -- and pushes exactly "is present"
 pub fn unwrap_into(ctx: &mut Ctx, args: &Vec<VString>) -> (r: Result<(), VErr>)
     ensures
         r is Ok ==> old(ctx).stack@.len() > 0 && args@.len() >= 1 && moved_out(old(ctx).stack@.last()) is Some && ({{
             let top = moved_out(old(ctx).stack@.last())->Some_0;
-            let stored = locals_view(&final(ctx).locals)[text_of(&args@[0])];
-            &&& locals_view(&final(ctx).locals).dom() == locals_view(&old(ctx).locals).dom().insert(text_of(&args@[0]))
+            &&& stores(&final(ctx).frames).len() == stores(&old(ctx).frames).len() + 1
+            &&& stores(&final(ctx).frames).drop_last() == stores(&old(ctx).frames)
+            &&& stores(&final(ctx).frames).last().0 == text_of(&args@[0])
+            &&& locals_view(&final(ctx).locals) == locals_view(&old(ctx).locals)          // no same-named local of the innermost frame is created
             // true exactly when the value is present
             &&& final(ctx).stack@ == old(ctx).stack@.drop_last().push(Primitive::Bool(!is_nil(top)))
             // the value of e is what is stored: nil stays nil, a present value is stored as its payload
-            &&& (is_nil(top) ==> is_nil(stored))
-            &&& (!is_nil(top) && moved_out(present_value(top)) is Some ==> stored == moved_out(present_value(top))->Some_0)
+            &&& (is_nil(top) ==> is_nil(stores(&final(ctx).frames).last().1))
+            &&& (!is_nil(top) && moved_out(present_value(top)) is Some ==> stores(&final(ctx).frames).last().1 == moved_out(present_value(top))->Some_0)
         }}),
 {{
 {render(b_into, 1)}
